@@ -41,4 +41,11 @@ def ellipseForm {F : Type} [Add F] [Sub F] [Mul F] [Div F] (cx cy a b c s x y : 
 def contourPoint {F : Type} [Add F] [Sub F] [Mul F] (cx cy a b c s ct st : F) : F × F :=
   (a * ct * c - b * st * s + cx, a * ct * s + b * st * c + cy)
 
+/-- `gate.start_end` and `gate.high_low` as the source spells them (local names normalised to v0, v1, …).  `startEnd` models the first
+(negative counts clamp to 0, refusal when fewer events than the sum, first `num_start` and last `num_end` events dropped), `highLow`
+the second (strictly inside `(low, high)` on every selected channel, defaults from the stored range, ±inf without range). -/
+def sourceSpec : List (String × String) :=
+  [("start_end", "if num_start < 0: ; num_start = 0 ; if num_end < 0: ; num_end = 0 ; if data.shape[0] < num_start + num_end: ; raise ValueError('Number of events to discard greater than total' + ' number of events.') ; v0 = np.ones(shape=data.shape[0], dtype=bool) ; v0[:num_start] = False ; if num_end > 0: ; v0[-num_end:] = False ; v1 = data[v0] ; if full_output: ; return v2(gated_data=v1, mask=v0) ; else: ; return v1"),
+   ("high_low", "if channels is None: ; v0 = data ; else: ; v0 = data[:, channels] ; if v0.ndim == 1: ; v0 = v0.reshape((-1, 1)) ; if high is None: ; if hasattr(v0, 'range'): ; high = [np.inf if v1 is None else v1[1] for v1 in v0.range()] ; high = np.array(high) ; else: ; high = np.inf ; if low is None: ; if hasattr(v0, 'range'): ; low = [-np.inf if v1 is None else v1[0] for v1 in v0.range()] ; low = np.array(low) ; else: ; low = -np.inf ; v2 = np.all((v0 < high) & (v0 > low), axis=1) ; v3 = data[v2] ; if full_output: ; return v4(gated_data=v3, mask=v2) ; else: ; return v3")]
+
 end FlowCal.Gate
